@@ -477,7 +477,7 @@ func (c *Ctx) postConnectOnly() map[*types.Func]bool {
 	}
 	afterConnect := map[*types.Func]bool{} // called from processor, always after connect→ok
 	beforeConnect := map[*types.Func]bool{}
-	for _, fi := range c.P.LibFuncs("broker") {
+	for _, fi := range c.P.LibFuncsAll("broker") {
 		if fi.Decl.Body == nil {
 			continue
 		}
